@@ -323,7 +323,17 @@ def implicit_case(rng):
     calls = []
     # attribute first (attributes are evaluated before the content)
     a_run = run()
-    a_src, a_out, a_kind = render(a_run, tr_attr, calls, dom, attr=True)
+    # the attribute may also be listed in i18n:attributes (without an id): then it is translated once, as a whole - message id and default
+    # are the rendered value, no mapping - whether or not it is an implicit one as well
+    explicit = rng.random() < 0.3
+    if explicit:
+        a_src, a_out, a_kind = render(a_run, False, [], dom, attr=True)
+        if a_out:
+            calls.append({'msgid': a_out, 'mapping': None, 'default': a_out, 'domain': dom, 'context': None, 'target': None})
+            a_out = '[%s|]' % a_out
+        a_kind = 'explicit'
+    else:
+        a_src, a_out, a_kind = render(a_run, tr_attr, calls, dom, attr=True)
     if a_kind == 'plain':
         if tr_attr and a_out:
             calls.append({'msgid': a_out, 'mapping': None, 'default': a_out, 'domain': dom, 'context': None, 'target': None})
@@ -336,7 +346,7 @@ def implicit_case(rng):
             norm = re.sub(r'\s+', ' ', m.group(2))
             calls.append({'msgid': norm, 'mapping': None, 'default': norm, 'domain': dom, 'context': None, 'target': None})
             t_out = m.group(1) + '[%s|]' % norm + m.group(3)
-    src = '<p%s title="%s">%s</p>' % (' i18n:domain="dd"' if dom else '', a_src, t_src)
+    src = '<p%s%s title="%s">%s</p>' % (' i18n:domain="dd"' if dom else '', ' i18n:attributes="title"' if explicit else '', a_src, t_src)
     exp = '<p title="%s">%s</p>' % (a_out, t_out)
     cfg = {'implicit_i18n_translate': tr_text}
     if tr_attr:
